@@ -6,6 +6,7 @@ import (
 	"fmt"
 	"os"
 	"runtime"
+	"strconv"
 	"strings"
 	"testing/synctest"
 	"time"
@@ -156,7 +157,12 @@ func (w *World) loop() {
 func (w *World) deliver(p *core.Pending) {
 	switch p.Kind {
 	case "step":
-		ar := p.Data.(actorRef)
+		ar, ok := p.Data.(actorRef)
+		if !ok {
+			w.logf("%s", p.Key)
+			w.sched.Release(p, nil)
+			return
+		}
 		if ar.gen != w.gen {
 			w.sched.Release(p, stopSignal{})
 			return
@@ -282,6 +288,7 @@ func (w *World) serveHTTP(ev *httpEvent) httpResult {
 		w.stat("fault_http_"+hfNames[kind], 1)
 	}
 	w.logf("http %s %s -> %s", ev.host, summary, hfNames[kind])
+	w.c08Observe(ev, kind, !ev.batch && len(ev.reqs) == 1 && string(ev.reqs[0].ID) == `"1"`)
 	switch kind {
 	case hfConnErr:
 		return httpResult{err: errors.New("read tcp: connection reset by peer")}
@@ -567,3 +574,9 @@ func (w *World) applyScriptChain() {
 		}
 	}
 }
+
+func parseHexU(s string) (uint64, error) {
+	return strconv.ParseUint(strings.TrimPrefix(s, "0x"), 16, 64)
+}
+
+func jsonUnmarshal(b []byte, v any) error { return json.Unmarshal(b, v) }
